@@ -64,6 +64,8 @@ def run(ctx):
     have = M.driver_functions(drv)
     secret = sorted(set(c["fn"] for c in cases if c["secret"] and c["fn"] in have))
     fns = M.pick_functions(ctx, secret)
+    if "beltHash" in have and "beltHash" not in fns:
+        fns = fns + ["beltHash"]                 # one non-secret function as the control of the self-test
     cases_by_fn = collections.defaultdict(list)
     for c in cases:
         cases_by_fn[c["fn"]].append(c)
@@ -84,9 +86,9 @@ def run(ctx):
             blocks = evs[-1].get("dirty", [])
         if inv == "NoBadFree":
             blocks = ["unknown"]
-        key = "%s:%s:%s:b%s" % (inv, fn, M.exit_path(o), "_".join(str(b) for b in blocks[:4]))
+        key = "%s:%s:%s:b%s" % (inv, fn, M.exit_path(o, evs), "_".join(str(b) for b in blocks[:4]))
         c = byid.get(cid // 1000)
-        ctx.violation(key, "%s: %s on exit path %s (rc=%s): %s" % (inv, fn, M.exit_path(o), M.en(o["rc"]) if o else "?",
+        M.report(ctx, key, "%s: %s on exit path %s (rc=%s): %s" % (inv, fn, M.exit_path(o, evs), M.en(o["rc"]) if o else "?",
                       M.describe_heap(inv, evs) + ("; block(s) left behind dirty: %s" % evs[-1].get("dirty") if inv == "WEnd" else "")),
                       {"command": (c["line"] if c else "") + (" k0=%d" % o["failAt"] if o and o["failAt"] else ""),
                        "events": evs, "result": o,
@@ -158,11 +160,4 @@ def selftest(ctx, calls, fns):
         i = next(i for i, e in enumerate(nonsec) if e["e"] == "Free")
         m = [dict(e) for e in nonsec]; m[i]["wiped"] = False; m[i]["zero"] = False
         muts.append(("accepted", m))                            # W only binds secret-processing calls
-    for k, (want, m) in enumerate(muts):
-        acc, st, viol, rej, infra = M.validate_heap(ctx, collections.OrderedDict([(m[0]["id"], m)]), INV, "c15self%d" % k)
-        got = viol[0][0] if viol else ("reject" if rej else ("accepted" if acc else "none"))
-        if got == want:
-            n_ok += 1
-        else:
-            ctx.note_inconclusive("self-test: mutated allocator trace expected %s, TLC said %s %s" % (want, got, infra[:1]))
-    return n_ok
+    return M.run_heap_selftests(ctx, muts, INV, "c15self")
